@@ -333,6 +333,14 @@ func genC05Constructed(t *rapid.T) c05Case {
 	lay := genLayout(t)
 	pieces := renderScript(sc, &lay)
 	c := c05Case{Pieces: pieces, Seed: "s1", Kind: "generated", Expect: "accept"}
+	if rapid.IntRange(0, 5).Draw(t, "longliteral") == 0 {
+		// number literals of any length are syntactically valid (beyond the largest double they read as infinity)
+		digits := rapid.SampledFrom([]string{"1", "2", "9"}).Draw(t, "first") + strings.Repeat(rapid.SampledFrom([]string{"0", "9", "5"}).Draw(t, "digit"), rapid.SampledFrom([]int{25, 307, 308, 309, 400, 5000}).Draw(t, "length"))
+		stmt := rapid.SampledFrom([]string{"<<set $huge to %s>>\n", "huge {%s}\n", "<<if false>>\n<<set $huge to %s + 1>>\n<<endif>>\n", "<<declare $huge = %s>>\n", "<<set $huge to 0.%s>>\n"}).Draw(t, "where")
+		pi := rapid.IntRange(0, len(pieces)-1).Draw(t, "piece")
+		pieces[pi] = strings.Replace(pieces[pi], "---\n", "---\n"+fmt.Sprintf(stmt, digits), 1)
+		c.Kind = "generated + long number literal"
+	}
 	if rapid.Bool().Draw(t, "break") {
 		// one edit that makes the script invalid under any reading of the syntax
 		pi := rapid.IntRange(0, len(pieces)-1).Draw(t, "piece")
@@ -365,7 +373,9 @@ func genC05Constructed(t *rapid.T) c05Case {
 			}
 		}
 		pick := func(xs []int, label string) int { return xs[rapid.IntRange(0, len(xs)-1).Draw(t, label)] }
-		edit := rapid.SampledFrom([]string{"mixed-indentation", "mixed-indentation", "drop-endif", "extra-endif", "unclosed-if", "drop-command-end", "drop-closing-brace", "drop-node-end", "stray-else"}).Draw(t, "edit")
+		edit := rapid.SampledFrom([]string{"mixed-indentation", "mixed-indentation", "drop-endif", "extra-endif", "unclosed-if", "drop-command-end", "drop-closing-brace", "drop-node-end", "stray-else", "split-node-end", "split-endif"}).Draw(t, "edit")
+		// characters that are not white space and not part of any structural token: inside one they break it
+		intruder := rapid.SampledFrom([]string{"\ufeff", "\u200b", "x", ".", "\u00ad", "é", "\u2060"}).Draw(t, "intruder")
 		done := false
 		switch {
 		case edit == "mixed-indentation" && len(body) > 0:
@@ -402,6 +412,19 @@ func genC05Constructed(t *rapid.T) c05Case {
 		case edit == "drop-node-end" && len(ends) > 0:
 			lines[ends[len(ends)-1]] = ""
 			done = true
+		case edit == "split-node-end" && len(ends) > 0:
+			// the last node's end marker with a foreign character inside: not an end marker, the body never ends
+			i := ends[len(ends)-1]
+			at := strings.Index(lines[i], "===") + rapid.IntRange(1, 2).Draw(t, "at")
+			lines[i] = lines[i][:at] + intruder + lines[i][at:]
+			done = true
+		case edit == "split-endif" && len(endifs) > 0:
+			i := pick(endifs, "line")
+			if j := strings.Index(lines[i], "endif"); j >= 0 {
+				at := j + rapid.IntRange(1, 5).Draw(t, "at")
+				lines[i] = lines[i][:at] + intruder + lines[i][at:]
+				done = true
+			}
 		}
 		if !done {
 			return c
